@@ -241,7 +241,7 @@ def sc_gst(d, n, b, method):
 
 
 # ---------------------------------------------------------------- ValueOfInformationEER end to end (refits inside the strategy)
-def sc_eer_voi(d, n, K, encs, subtract_current):
+def sc_eer_voi(d, n, K, encs, subtract_current, consider_unlabeled=True, normalize=False):
     """symbolic run: stub classifier whose fitted model is a function of (X, encoded y, weights) - the real
     SkactivemlClassifier._validate_data encodes the labels, so equal training sets under two encodings give the same
     model; concrete replay: the real ParzenWindowClassifier"""
@@ -261,7 +261,8 @@ def sc_eer_voi(d, n, K, encs, subtract_current):
         else:
             from skactiveml.classifier import ParzenWindowClassifier
             clf = ParzenWindowClassifier(classes=e["classes"][:K], missing_label=e["missing"])
-        qs = P.ValueOfInformationEER(subtract_current=subtract_current, missing_label=e["missing"], random_state=seed)
+        qs = P.ValueOfInformationEER(subtract_current=subtract_current, consider_unlabeled=consider_unlabeled, normalize=normalize,
+                                     missing_label=e["missing"], random_state=seed)
         try:
             outs.append(qs.query(X, encode(d, idx, enc), clf, fit_clf=True, batch_size=1, return_utilities=True))
         except (core.Unencodable, core.PathAbort):
@@ -526,7 +527,9 @@ HARNESSES = [
                  UNITS[:9] + UNITS[15:16], required_witnesses=("some_labeled",), product_abstraction=True),
     dual_harness("eer_value_of_information", sc_eer_voi,
                  lambda tier: [dict(n=3, K=2, encs=e, subtract_current=sc) for sc in (False, True)
-                               for e in ([PAIRS_Q[0]] if tier == "quick" else PAIRS_Q)],
+                               for e in ([PAIRS_Q[0]] if tier == "quick" else PAIRS_Q)]
+                 # only the labeled samples are evaluated and the error is normalised by their number - also when there is none
+                 + [dict(n=2, K=2, encs=PAIRS_Q[0], subtract_current=True, consider_unlabeled=False, normalize=True)],
                  UNITS[:9] + ["skactiveml.pool._expected_error_reduction:ExpectedErrorReduction.query",
                               "skactiveml.pool._expected_error_reduction:ValueOfInformationEER._estimate_error_for_candidate",
                               "skactiveml.pool._expected_error_reduction:ValueOfInformationEER._estimate_current_error",
